@@ -196,6 +196,21 @@ func checkMain(args []string) {
 	var results []*FuncResult
 	done := map[string]bool{}
 	queue := append([]string{}, order...)
+	// trusted contracts with `bodyrules <prop>`: the body is executed against a contract that keeps the preconditions only
+	for _, name := range prog.contracts.Order {
+		c := prog.contracts.Funcs[name]
+		if c.Kind != "func" || !c.Trusted || !hasProp(c.BodyRules, prop) || prog.funcs[name] == nil {
+			continue
+		}
+		shadow := emptyContract(name)
+		shadow.Requires = c.Requires
+		shadow.Assumes = c.Assumes
+		shadow.File, shadow.Line = c.File, c.Line
+		r := prog.verifyFunc(name, shadow)
+		r.TaggedOnly = true
+		r.Name = name + " (body rules)"
+		results = append(results, r)
+	}
 	for len(queue) > 0 {
 		name := queue[0]
 		queue = queue[1:]
